@@ -390,7 +390,9 @@ def _check_pairs(cell, case, ctx):
     # phi of a result is in [-pi, pi], not merely right modulo 2 pi
     for rname, rf in (("(a+b).phi", lambda v, w: v.add(w).phi), ("(a-b).phi", lambda v, w: v.subtract(w).phi),
                       ("(-1.5 a).phi", lambda v, w: v.scale(-1.5).phi)) + (
-                          (("(a+b).theta", lambda v, w: v.add(w).theta), ("(-1.5 a).theta", lambda v, w: v.scale(-1.5).theta)) if d >= 3 else ()):
+                          (("(a+b).theta", lambda v, w: v.add(w).theta), ("(-1.5 a).theta", lambda v, w: v.scale(-1.5).theta)) if d >= 3 else ()) + (
+                              ("(-1.5 a).rho", lambda v, w: v.scale(-1.5).rho), ("(-a).rho", lambda v, w: (-v).rho), ("(a / -2).rho", lambda v, w: (v / -2.0).rho),
+                              ("(a-b).rho", lambda v, w: v.subtract(w).rho)):
         vals = run(rname, rf)
         if vals is None:
             return
@@ -400,7 +402,7 @@ def _check_pairs(cell, case, ctx):
             x = _num(x)
             if x is None or not notnan(x):
                 continue
-            if not (lo - slack <= x <= PI + slack):
+            if not (lo - slack <= x <= PI + slack) and not (rname.endswith("rho") and x >= 0):
                 _fail(ctx, cell, rname.split(".")[-1], "range of a result", f"{rname}={x!r} for a={cell['sa']}{opcheck.fmt(ra[i])} "
                       f"b={cell['sb']}{opcheck.fmt(rb[i])} [{be}]")
                 return
